@@ -165,11 +165,19 @@ SITES = [
     S("min", "base/src/utils/mod.rs", r"pub const fn min\(a: usize, b: usize\) -> usize \{(.*?)\n\}", [], ["a", "b"]),
     S("ceilMul", "base/src/utils/mod.rs", r"pub const fn ceil_mul\(x: usize, m: usize\) -> usize \{(.*?)\n\}", [], ["x", "m"]),
     S("floorMul", "base/src/utils/mod.rs", r"pub const fn floor_mul\(x: usize, m: usize\) -> usize \{(.*?)\n\}", [], ["x", "m"]),
+    # base/src/error.rs: what `Error::offset` does to the position
+    S("errOffset", "base/src/error.rs", r"pub fn offset\(mut self, offset: usize\) -> Self \{\s*(self\.pos \+= offset);\s*self\s*\}", [(r"self\.pos \+= ", "pos + ")], ["pos", "offset"]),
     # base/src/utils/iter.rs
     S("singleMinSize", "base/src/utils/iter.rs", r"impl<T: Flat \+ \?Sized> TypeIter for SingleType<T> \{.*?fn min_size\(&self, pos: usize\) -> usize \{(.*?)\}", [(r"T::ALIGN", "talign"), (r"T::MIN_SIZE", "tmin")], ["pos", "talign", "tmin"]),
     S("twoMinSizeArg", "base/src/utils/iter.rs", r"impl<T: Flat \+ Sized, I: TypeIter> TypeIter for TwoOrMoreTypes<T, I> \{.*?fn min_size\(&self, pos: usize\) -> usize \{\s*self\.next\.min_size\((.*?)\)\s*\}", [(r"T::ALIGN", "talign"), (r"T::SIZE", "tsize")], ["pos", "talign", "tsize"]),
     S("twoAlign", "base/src/utils/iter.rs", r"impl<T: Flat \+ Sized, I: TypeIter> TypeIter for TwoOrMoreTypes<T, I> \{.*?fn align\(&self\) -> usize \{(.*?)\}", [(r"T::ALIGN", "talign"), (r"self\.next\.align\(\)", "nextalign")], ["talign", "nextalign"]),
     S("posNext", "base/src/utils/iter.rs", r"impl<T: Flat \+ Sized, I: TypeIter> PosIter<TwoOrMoreTypes<T, I>> \{.*?pos: (.*?),\n", [(r"self\.pos", "pos"), (r"T::SIZE", "tsize"), (r"I::Item::ALIGN", "nextalign")], ["pos", "tsize", "nextalign"]),
+    # DataIter::next: how many bytes the yielded field's slice gets (structural: prev_pos is taken before, next_pos after the position step)
+    S("iterSplitLen", "base/src/utils/iter.rs", r"pub fn next\(self\) -> \(DataIter<'a, D, I>, D::Output<T>\) \{\s*let prev_pos = self\.iter\.pos\(\);\s*let iter = self\.iter\.next\(\);\s*let next_pos = iter\.pos\(\);\s*let \(prev_data, next_data\) = self\.data\.split\((.*?)\);\s*\(\s*DataIter \{\s*_ghost: PhantomData,\s*data: next_data,\s*iter,\s*\},\s*prev_data\.value\(\),\s*\)\s*\}", [(r"prev_pos", "prev"), (r"next_pos", "next")], ["prev", "next"]),
+    # ValidateIter::validate_all: where a field's error is reported (structural: the field at the walker's own position is validated on the
+    # remaining data, its error is offset, and only then the walker steps)
+    S("iterValidatePosStep", "base/src/utils/iter.rs", r"for BytesIter<'a, TwoOrMoreTypes<T, I>>\s*where\s*BytesIter<'a, I>: ValidateIter,\s*I::Item: 'a,\s*\{\s*fn validate_all\(self\) -> Result<\(\), Error> \{\s*unsafe \{ T::validate_unchecked\(self\.clone\(\)\.value\(\)\) \}\.map_err\(\|e\| e\.offset\((.*?)\)\)\?;\s*self\.next\(\)\.0\.validate_all\(\)\s*\}", [(r"self\.pos\(\)", "pos")], ["pos"]),
+    S("iterValidatePosLast", "base/src/utils/iter.rs", r"impl<'a, T: Flat \+ \?Sized> ValidateIter for BytesIter<'a, SingleType<T>> \{\s*fn validate_all\(self\) -> Result<\(\), Error> \{\s*self\.assert_last\(\);\s*unsafe \{ T::validate_unchecked\(self\.clone\(\)\.value\(\)\) \}\.map_err\(\|e\| e\.offset\((.*?)\)\)\?;\s*Ok\(\(\)\)\s*\}", [(r"self\.pos\(\)", "pos")], ["pos"]),
     S("foldSizeDynStep", "base/src/utils/iter.rs", r"for BytesIter<'a, TwoOrMoreTypes<T, I>>\s*where.*?unsafe fn fold_size\(self, size: usize\) -> usize \{\s*self\.next\(\)\.0\.fold_size\((.*?)\)\s*\}", [(r"T::ALIGN", "talign"), (r"T::SIZE", "tsize")], ["size", "talign", "tsize"]),
     S("foldSizeDynLast", "base/src/utils/iter.rs", r"impl<'a, T: Flat \+ \?Sized> FoldSizeIter for BytesIter<'a, SingleType<T>> \{\s*unsafe fn fold_size\(self, size: usize\) -> usize \{(.*?)\n    \}", [(r"\(\*T::ptr_from_bytes\(self\.finalize\(\) as \*const _ as \*mut _\)\)\.size\(\)", "lastsize"), (r"T::ALIGN", "talign")], ["size", "talign", "lastsize"]),
     S("foldSizeStep", "base/src/utils/iter.rs", r"macro_rules! fold_size \{\s*\(\$accum:expr; \$first_type:ty, \$\(\$types:ty\),\+ \$\(,\)\?\) => \{\s*\$crate::utils::iter::fold_size!\(\s*(.*?);\s*\$\( \$types \),\*", [(r"<\$first_type as FlatBase>::ALIGN", "talign"), (r"<\$first_type as FlatSized>::SIZE", "tsize"), (r"\$accum", "accum")], ["accum", "talign", "tsize"]),
@@ -177,6 +185,8 @@ SITES = [
     S("foldMinSizeStep", "base/src/utils/iter.rs", r"macro_rules! fold_min_size \{\s*\(\$accum:expr; \$first_type:ty, \$\(\$types:ty\),\+ \$\(,\)\?\) => \{\s*\$crate::utils::iter::fold_min_size!\(\s*(.*?);\s*\$\( \$types \),\*", [(r"<\$first_type as FlatBase>::ALIGN", "talign"), (r"<\$first_type as FlatSized>::SIZE", "tsize"), (r"\$accum", "accum")], ["accum", "talign", "tsize"]),
     S("foldMinSizeLast", "base/src/utils/iter.rs", r"macro_rules! fold_min_size \{.*?\(\$accum:expr; \$type:ty \$\(,\)\?\) => \{(.*?)\};\s*\}", [(r"<\$type as FlatBase>::ALIGN", "talign"), (r"<\$type as FlatBase>::MIN_SIZE", "tmin"), (r"\$accum", "accum")], ["accum", "talign", "tmin"]),
     # containers/src/vec.rs
+    S("vecElemErrPos", "containers/src/vec.rs", r"for \(i, x\) in unsafe \{ this\.data\(\)\.get_unchecked\(\.\.this\.len\(\)\) \}\.iter\(\)\.enumerate\(\) \{\s*unsafe \{ T::validate_ptr\(x\.as_ptr\(\)\) \}\.map_err\(\|e\| e\.offset\((.*?)\)\)\?;", [(r"Self::DATA_OFFSET", "doff"), (r"T::SIZE", "tsize")], ["doff", "i", "tsize"]),
+    S("strUtf8ErrPos", "containers/src/string.rs", r"Err\(e\) => Err\(Error \{\s*kind: ErrorKind::InvalidData,\s*pos: (.*?),\s*\}\)", [(r"Self::DATA_OFFSET", "doff"), (r"e\.valid_up_to\(\)", "upto")], ["doff", "upto"]),
     S("vecDataOffset", "containers/src/vec.rs", r"const DATA_OFFSET: usize = (.*?);", [(r"L::SIZE", "lsize"), (r"T::ALIGN", "talign")], ["lsize", "talign"]),
     S("vecAlign", "containers/src/vec.rs", r"unsafe impl<T, L> FlatBase for FlatVec<T, L>.*?const ALIGN: usize = (.*?);", [(r"L::ALIGN", "lalign"), (r"T::ALIGN", "talign")], ["lalign", "talign"]),
     S("vecMinSize", "containers/src/vec.rs", r"unsafe impl<T, L> FlatBase for FlatVec<T, L>.*?const MIN_SIZE: usize = (.*?);", [(r"Self::DATA_OFFSET", "doff")], ["doff"]),
@@ -199,6 +209,9 @@ SITES = [
     S("flexFillItem", "containers/src/flex.rs", r"let payload_size = (ceil_mul\(item\.size\(\), FlexVec::<T, L>::ALIGN\));", [(r"item\.size\(\)", "isz"), (r"FlexVec::<T, L>::ALIGN", "align")], ["isz", "align"]),
     # `push`: the item is emplaced first (its error shifted by this much), then the new slot is marked, then the previous item is sealed —
     # the site is found only while the three statements stand in that order
+    S("flexItemErrPos", "containers/src/flex.rs", r"loop \{\s*let pos = iter\.pos;\s*match iter\.next\(\) \{\s*Some\(item_bytes\) => T::validate\(item_bytes\?\)\.map_err\(\|e\| e\.offset\((.*?)\)\)\?,\s*None => break Ok\(\(\)\),", [(r"Self::OFFSET_SIZE", "os")], ["pos", "os"]),
+    S("flexSlotReadErrPos", "containers/src/flex.rs", r"let next_offset = match L::from_bytes\(data\.bytes\(\)\) \{\s*Ok\(x\) => x\.to_usize\(\)\.unwrap\(\),\s*Err\(e\) => return Some\(Err\(e\.offset\((.*?)\)\)\),", [(r"self\.pos", "pos")], ["pos"]),
+    S("flexFillItemErrPos", "containers/src/flex.rs", r"let item = match item_emplacer\.emplace\(payload\) \{\s*Ok\(item\) => item,\s*Err\(e\) => \{\s*result = Err\(e\.offset\((.*?)\)\);\s*data = offset_slot;\s*break;", [(r"offset_size", "os")], ["pos", "os"]),
     S("flexPushItemErrPos", "containers/src/flex.rs", r"let \(offset_slot, payload\) = data\.split_at_mut\(offset_size\);\s*(?://[^\n]*\n\s*)*let item = emplacer\.emplace\(payload\)\.map_err\(\|e\| e\.offset\((.*?)\)\)\?;\s*L::max_value\(\)\.emplace\(offset_slot\)\?;\s*if let Some\(\(last_offset_slot, sealed\)\) = last_slot \{\s*sealed\.emplace\(last_offset_slot\)\?;\s*\}\s*Ok\(item\)", [(r"offset_size", "os")], ["pos", "os"]),
     S("flexValidateFloor", "containers/src/flex.rs", r"let bytes = unsafe \{ bytes\.get_unchecked\(\.\.(floor_mul\(bytes\.len\(\), Self::ALIGN\))\) \};", [(r"bytes\.len\(\)", "n"), (r"Self::ALIGN", "align")], ["n", "align"]),
     # macros/src/items/base.rs
@@ -216,6 +229,7 @@ SITES = [
     S("uenumViewLen", "macros/src/items/unsized_.rs", r"set_slice_ptr_len\(__flatty_bytes, (Self::DATA_OFFSET \+ slice_ptr_len\(__flatty_bytes\))\)", [(r"slice_ptr_len\(__flatty_bytes\)", "mlen"), (r"Self::DATA_OFFSET", "doff")], ["doff", "mlen"]),
     # macros/src/items/cast.rs, init.rs: floors that make validation / initialisation agree with the view
     S("ustructValidateFloor", "macros/src/items/cast.rs", r"__flatty_bytes\.get_unchecked\(\.\.(::flatty::utils::floor_mul\(__flatty_bytes\.len\(\), <Self as ::flatty::traits::FlatBase>::ALIGN\))\)", [(r"__flatty_bytes\.len\(\)", "n"), (r"<Self as FlatBase>::ALIGN", "align")], ["n", "align"]),
+    S("uenumPayloadErrPos", "macros/src/items/cast.rs", r"match tag \{\s*#variants\s*\}\.map_err\(\|e\| e\.offset\((.*?)\)\)", [(r"Self::DATA_OFFSET", "doff")], ["doff"]),
     S("uenumValidateFloor", "macros/src/items/cast.rs", r"let data = unsafe \{ __flatty_bytes\.get_unchecked\(Self::DATA_OFFSET\.\.\) \};\s*let data = unsafe \{ data\.get_unchecked\(\.\.(::flatty::utils::floor_mul\(data\.len\(\), <Self as ::flatty::traits::FlatBase>::ALIGN\))\) \};\s*#size_check\s*match tag \{", [(r"data\.len\(\)", "n"), (r"<Self as FlatBase>::ALIGN", "align")], ["n", "align"]),
     # io/src/common/io.rs: the window arithmetic of `Buffer`
     S("ioPrecedingLen", "io/src/common/io.rs", r"fn preceding_len\(&self\) -> usize \{(.*?)\}", [(r"self\.window\.start", "wstart")], ["wstart"]),
@@ -227,6 +241,8 @@ SITES = [
     S("ioRecvCap", "io/src/blocking/recv.rs", r"Self::new\(IoBuffer::new\(pipe, (.*?), M::ALIGN\)\)", [(r"max_msg_len\.max\(M::MIN_SIZE\)", "max(maxlen, tmin)")], ["maxlen", "tmin"]),
     S("aioSendCap", "io/src/async_/send.rs", r"Self::new\(IoBuffer::new\(pipe, (.*?), M::ALIGN\)\)", [(r"max_msg_len\.max\(M::MIN_SIZE\)", "max(maxlen, tmin)")], ["maxlen", "tmin"]),
     S("aioRecvCap", "io/src/async_/recv.rs", r"Self::new\(IoBuffer::new\(pipe, (.*?), M::ALIGN\)\)", [(r"max_msg_len\.max\(M::MIN_SIZE\)", "max(maxlen, tmin)")], ["maxlen", "tmin"]),
+    S("initWalkerErrPos", "macros/src/items/init.rs", r"let iter = iter::BytesMutIter::new\(__flatty_bytes, iter::type_list!\(#type_list\)\)\s*\.map_err\(\|e\| e\.offset\((.*?)\)\)\?;", [(r"__flatty_offset", "off")], ["off"]),
+    S("iterNewChecks", "base/src/utils/iter.rs", r"pub fn new\(data: D, iter: I\) -> Result<Self, Error> \{\s*iter\.check_align_and_min_size\((data\.bytes\(\))\)\?;\s*Ok\(unsafe \{ Self::new_unchecked\(data, iter\) \}\)\s*\}", [(r"data\.bytes\(\)", "whole")], ["whole"]),
     S("initFloor", "macros/src/items/init.rs", r"let __flatty_len = (::flatty::utils::floor_mul\(__flatty_bytes\.len\(\), <#self_ident<#self_args> as ::flatty::traits::FlatBase>::ALIGN\));", [(r"__flatty_bytes\.len\(\)", "n"), (r"<#self_ident<#self_args> as FlatBase>::ALIGN", "align")], ["n", "align"]),
 ]
 
@@ -240,6 +256,11 @@ GUARDS = [
       [(r"bytes\.as_ptr\(\)\.align_offset\(T::ALIGN\)", "misalign")], ["misalign"]),
     G("gCheckMin", "base/src/utils/mem.rs", r"\} else if (bytes\.len\(\) [<>=!]+ T::MIN_SIZE) \{" + ERR,
       [(r"bytes\.len\(\)", "n"), (r"T::MIN_SIZE", "tmin")], ["n", "tmin"]),
+    # the same test as a method of the field walker (`TypeIter::check_align_and_min_size`, used by `DataIter::new`)
+    G("gIterCheckAlign", "base/src/utils/iter.rs", r"fn check_align_and_min_size\(&self, data: &\[u8\]\) -> Result<\(\), Error> \{\s*if (data\.as_ptr\(\)\.align_offset\(self\.align\(\)\) [<>=!]+ 0) \{" + ERR,
+      [(r"data\.as_ptr\(\)\.align_offset\(self\.align\(\)\)", "misalign")], ["misalign"]),
+    G("gIterCheckMin", "base/src/utils/iter.rs", r"\} else if (data\.len\(\) [<>=!]+ self\.min_size\(0\)) \{" + ERR,
+      [(r"data\.len\(\)", "n"), (r"self\.min_size\(0\)", "tmin")], ["n", "tmin"]),
     G("gVecValidate", "containers/src/vec.rs", r"if (this\.len\(\) [<>=!]+ this\.capacity\(\)) \{" + ERR,
       [(r"this\.len\(\)", "len"), (r"this\.capacity\(\)", "cap"), (r"Self::DATA_OFFSET", "doff")], ["len", "cap", "doff"]),
     G("gVecFromArray", "containers/src/vec.rs", r"if (vec\.capacity\(\) [<>=!]+ N) \{" + ERR,
@@ -274,6 +295,7 @@ CONDS = [
     C("cFlexTruncNoop", "containers/src/flex.rs", r"pub fn truncate\(&mut self, len: usize\) \{\s*if (len [<>=!]+ self\.len\(\)) \{\s*return;\s*\}", [(r"self\.len\(\)", "cur")], ["len", "cur"]),
     C("cFlexTruncEmpty", "containers/src/flex.rs", r"if (len [<>=!]+ 0) \{\s*L::zero\(\)\.emplace\(&mut self\.data\)\.unwrap\(\);\s*\} else \{\s*let mut iter = self\.bytes_mut_iter\(\);\s*if len > 1 \{\s*let _ = iter\.nth\(len - 2\);\s*\}\s*L::max_value\(\)\.emplace\(iter\.data\.unwrap\(\)\)\.unwrap\(\);", [], ["len"]),
     C("cFlexPopSome", "containers/src/flex.rs", r"pub fn pop\(&mut self\) -> Result<\(\), EmptyError> \{\s*let len = self\.len\(\);\s*if (len [<>=!]+ 0) \{\s*self\.truncate\(len - 1\);\s*Ok\(\(\)\)\s*\} else \{\s*Err\(EmptyError\)", [], ["len"]),
+    C("cVecElemsVisited", "containers/src/vec.rs", r"if (T::SIZE [<>=!]+ 0) \{\s*for \(i, x\) in", [(r"T::SIZE", "tsize")], ["tsize"]),
     C("cTagInRange", "macros/src/items/tag.rs", r"if (\*tag [<>=!]+ #var_count) \{\s*Ok\(\(\)\)\s*\} else \{\s*Err\(Error \{\s*kind: ErrorKind::InvalidEnumTag,\s*pos: 0,", [(r"\*tag", "tag"), (r"#var_count", "count")], ["tag", "count"]),
     # `Buffer::skip` / `Buffer::advance`: the window assertions; the `skip` site exists only while the reset of an emptied window follows it
     C("cIoSkipAssert", "io/src/common/io.rs", r"self\.window\.start \+= count;\s*assert!\((.*?)\);\s*if self\.window\.is_empty\(\) \{\s*self\.window = 0\.\.0;\s*\}", [(r"self\.window\.start", "wstart"), (r"self\.window\.end", "wend")], ["wstart", "wend"]),
@@ -284,6 +306,10 @@ CONDS = [
     C("cIoPoisonErr", "io/src/blocking/io.rs", _POISON_ERR % ("", "", ""), [], ["pos"]),
     C("cIoReadFull", "io/src/blocking/io.rs", r"fn read\(&mut self\).*?if (self\.buffer\.vacant_len\(\) [<>=!]+ 0) \{", [(r"self\.buffer\.vacant_len\(\)", "vacant")], ["vacant"]),
     C("cIoReadCompact", "io/src/blocking/io.rs", r"fn read\(&mut self\).*?if (self\.buffer\.preceding_len\(\) [<>=!]+ 0) \{\s*self\.buffer\.make_contiguous\(\);\s*\} else \{\s*return Err\(io::ErrorKind::OutOfMemory", [(r"self\.buffer\.preceding_len\(\)", "preceding")], ["preceding"]),
+    # `recv`: which validation error means "read more" (the error kinds are numbered in the order `ErrorKind` declares them); the site exists only
+    # while every other kind is returned as `RecvError::Parse` and the loop validates the buffer before it reads
+    C("cIoRecvRetry", "io/src/blocking/recv.rs", r"while let Err\(e\) = M::validate\(&self\.buffer\) \{\s*match e\.kind \{\s*ErrorKind::(\w+) => \(\),\s*_ => return Err\(RecvError::Parse\(e\)\),\s*\}\s*if self\.buffer\.read\(\)", [(r"\bInsufficientSize\b", "kind == 0"), (r"\bBadAlign\b", "kind == 1"), (r"\bInvalidEnumTag\b", "kind == 2"), (r"\bInvalidData\b", "kind == 3"), (r"\bOther\b", "kind == 4")], ["kind"]),
+    C("cAioRecvRetry", "io/src/async_/recv.rs", r"while let Err\(e\) = M::validate\(&self\.buffer\) \{\s*match e\.kind \{\s*ErrorKind::(\w+) => \(\),\s*_ => return Err\(RecvError::Parse\(e\)\),\s*\}\s*if self\.buffer\.read\(\)", [(r"\bInsufficientSize\b", "kind == 0"), (r"\bBadAlign\b", "kind == 1"), (r"\bInvalidEnumTag\b", "kind == 2"), (r"\bInvalidData\b", "kind == 3"), (r"\bOther\b", "kind == 4")], ["kind"]),
     C("cIoRecvClosed", "io/src/blocking/recv.rs", r"if (self\.buffer\.read\(\)\.map_err\(RecvError::Read\)\? [<>=!]+ 0) \{\s*return Err\(RecvError::Closed\)", [(r"self\.buffer\.read\(\)\.map_err\(RecvError::Read\)\?", "n")], ["n"]),
     C("cAioWriteLoop", "io/src/async_/io.rs", r"while (self\.pos [<>=!]+ self\.count) \{", [(r"self\.pos", "pos"), (r"self\.count", "count")], ["pos", "count"]),
     C("cAioWriteZero", "io/src/async_/io.rs", r"Ok\(n\) => \{\s*if (n [<>=!]+ 0) \{", [], ["n"]),
